@@ -9,10 +9,14 @@ PROP = dict(
              monitors=["watcher_tracks (paused <-> last sample low)", "watcher_alternates"]),
         dict(driver="diskstart", quick=6, thorough=40, shard=100, noshrink=True,
              monitors=["start_refuse_exact (refused to start <-> free on the JOB volume < floor(tau))"]),
+        dict(driver="diskflag", quick=25, thorough=400, shard=500, noshrink=True,
+             monitors=["flag_exact (--min-space-required as given on the command line = the value the guard uses, bit for bit)"]),
+        dict(driver="diskhold", quick=4, thorough=24, shard=100, noshrink=True,
+             monitors=["watcher_tracks (paused <-> last sample low)", "watcher_alternates"]),
     ],
     partial="IEEE-754: the float operations of checkThreshold are exact on the domain (argument in DESIGN.md C18); "
             "the float->uint64 conversion is modelled as floor where Go defines it (< 2^64) and left unconstrained beyond.",
     assumptions=["binary64 multiplication/division by powers of two and total*25/128 for total <= 2^38 are exact",
                  "uint64(f) = floor(f) for 0 <= f < 2^64 (Go spec); implementation-defined beyond, not compared"],
-    level_text="Theorems for all (total, free, operator value) triples: the decision equals free < floor(tau) with tau spelled as in the property (exact to the byte) wherever Go defines the float->uint64 conversion, monotone in free space for ALL inputs incl. NaN/Inf/out-of-range, branches meet at 256 GiB, watcher loop tracks the threshold on every tick sequence. Model tied to checkThreshold and to the real WatchDiskSpace loop by a boundary-dense differential check on every run, and to the real start-up check (controler.Start in a child process, job directory and working directory on different filesystems on opposite sides of the threshold; trivial when the machine offers only one filesystem).",
+    level_text="Theorems for all (total, free, operator value) triples: the decision equals free < floor(tau) with tau spelled as in the property (exact to the byte) wherever Go defines the float->uint64 conversion, monotone in free space for ALL inputs incl. NaN/Inf/out-of-range, branches meet at 256 GiB, watcher loop tracks the threshold on every tick sequence. Model tied to checkThreshold and to the real WatchDiskSpace loop by a boundary-dense differential check on every run, and to the real start-up check (controler.Start in a child process, job directory and working directory on different filesystems on opposite sides of the threshold; trivial when the machine offers only one filesystem), to the real command line path of the operator value (cobra flags -> viper -> InitConfig in a child process) (this leg found that exactly the value 20 was reset to 0; fixed by /repo 55466e0, model = the fixed code) and to the real pipeline with all watchers sharing the pause manager (the disk watcher's pause holds while the disk stays low, sync and async WARC writing).",
 )
